@@ -250,7 +250,12 @@ def run_groups(prop, groups, tier, seed, props_filter=None, ll2c_opts=None, work
             groups_by_hash.setdefault(t["vc_hash"], []).append(t)
         batch = []
         reps = []
-        for h, ts in groups_by_hash.items():
+
+        def prio(item):
+            # under the quick tier's time budget the architecture-specific kernels go first, then the generic kernels, then the forwarding layers
+            b = os.path.basename(item[1][0]["fn"].file)
+            return 2 if b in ("xsimd_api.hpp", "xsimd_batch.hpp", "xsimd_scalar.hpp") else (1 if "generic" in b else 0)
+        for h, ts in sorted(groups_by_hash.items(), key=prio):
             t = ts[0]
             tt = dict(t)
             tt.pop("fn"), tt.pop("job")
